@@ -330,11 +330,19 @@ def concretize_int(x, limit=4096):
         n += 1
         if n > limit:
             raise E.Unsupported('concretisation of %s needs more than %d values' % (t, limit))
-        m = eng.model()
-        if m is False or m is None:
-            raise E.PathAbort()
-        v = m.eval(x.term, model_completion=True)
-        val = v.as_signed_long() if z3.is_bv_value(v) else v.as_long()
+        i = len(eng.decisions)
+        if i < len(eng.prefix) and eng.prefix_notes[i] is not None:
+            # re-execution: the candidate is the one recorded for this decision (a model-chosen candidate would differ
+            # from run to run and the recorded decision would be applied to another condition)
+            val = eng.prefix_notes[i]
+            v = z3.BitVecVal(val, x.term.size()) if z3.is_bv(x.term) else z3.IntVal(val)
+        else:
+            m = eng.model()
+            if m is False or m is None:
+                raise E.PathAbort()
+            v = m.eval(x.term, model_completion=True)
+            val = v.as_signed_long() if z3.is_bv_value(v) else v.as_long()
+        eng.next_note = val
         if eng.branch(x.term == v):
             return val
 
